@@ -25,7 +25,7 @@ PROPERTY_CLAUSES = {"Returns", "SelSubset", "SelKillsPreserved", "Subset", "Kill
                     "RerunKillsPreserved", "KeptAssertionsHold", "ScoreIn01", "ScoreIgnoresTimeoutsAndUnchecked"}
 
 MIN_FIELDS = ("ev", "nA", "nM", "col", "out", "rem", "crashed", "xonly", "r_created", "r_checked", "r_killed",
-              "r_timeout", "has_score", "s")
+              "r_timeout", "has_score", "s", "minimize")
 
 
 def slim(e: dict) -> dict:
@@ -118,6 +118,7 @@ def e2e_events(ctx: Ctx) -> list[tuple[dict, dict]]:
     good = 0
     out = []
     undecided = 0
+    leaky_inproc = [0, 0]
     for r in runs:
         names = [e["ev"] for e in r["events"]]
         if r["hung"] or "Return" not in names:
@@ -126,6 +127,11 @@ def e2e_events(ctx: Ctx) -> list[tuple[dict, dict]]:
         good += 1
         rec = {"family": "e2e", "cfg": r["cfg"]}
         for e in r["events"]:
+            if e["ev"] == "Kept" and e["where"] == "plain" and r["cfg"]["module"] in ad.LEAKY:
+                # state leaks between executions of one process: only the fresh-process re-execution counts
+                leaky_inproc[0] += e["n"]
+                leaky_inproc[1] += len(e["bad"])
+                continue
             if e["ev"] in ("Min", "Rerun", "Kept"):
                 out.append((e, rec))
                 if e["ev"] == "Rerun":
@@ -141,6 +147,9 @@ def e2e_events(ctx: Ctx) -> list[tuple[dict, dict]]:
     ctx.notes["e2e_runs"] = good
     ctx.notes["e2e_runs_cached"] = sum(1 for r in runs if r["cached"])
     ctx.notes["e2e_rerun_undecided_mutants"] = undecided
+    ctx.notes["e2e_rerun_different_mutants"] = sum(e.get("different_mutants", 0) for e, _ in out if e["ev"] == "Rerun")
+    ctx.notes["leaky_module_inprocess_reexecution_not_counted"] = {"assertions": leaky_inproc[0],
+                                                                   "not_holding": leaky_inproc[1]}
     return out
 
 
@@ -160,9 +169,14 @@ def run(ctx: Ctx) -> None:
         "and, when the generator filtered in a subprocess, in that subprocess executor too",
         "P2 stubs only the environment of _handle_add_assertions (mutation controller, mutation executor, "
         "monotonic clock, statistics sink)"]
+    # the end-to-end runs (subprocesses) proceed while TLC works on the design model and the P2 replays
+    from concurrent.futures import ThreadPoolExecutor  # noqa: PLC0415
+
+    pool = ThreadPoolExecutor(max_workers=1)
+    e2e_future = pool.submit(e2e_events, ctx)
     # ---------------------------------------------------------------- design
     if ctx.quick:
-        ctx.design("SetCover", coverage_actions=["Pick", "Prune", "Remove"], workers=4)
+        ctx.design("SetCover", workers=4)
     else:
         ctx.design("SetCover", "SetCover_thorough.cfg", coverage_actions=["Pick", "Prune", "Remove"])
         ctx.design("SetCover", "SetCover_full.cfg")
@@ -174,7 +188,7 @@ def run(ctx: Ctx) -> None:
     behs = [ad.normalise(b) for b in
             ctx.behaviours("MC_SetCover", "MC_SetCover.cfg" if ctx.quick else "MC_SetCover_thorough.cfg")]
     n_exh = len(behs)
-    for st in ctx.simulate("MC_SetCover", "MC_SetCover_sim.cfg", num=300 if ctx.quick else 4000, depth=24):
+    for st in ctx.simulate("MC_SetCover", "MC_SetCover_sim.cfg", num=200 if ctx.quick else 4000, depth=24):
         b = ad.normalise(st["b"])
         if st["todo"] == "kind" and len(b["kind"]) == b["nM"]:
             behs.append(b)
@@ -183,11 +197,15 @@ def run(ctx: Ctx) -> None:
     ctx.notes["behaviours_by_mode"] = {m: sum(1 for b in behs if b["mode"] == m) for m in ("map", "wide", "tuple", "sim")}
     ctx.exhaustive = True
     pairs: list[tuple[dict, dict]] = []
-    for b in behs:
-        pairs.extend(p2_events(b))
+    for i, b in enumerate(behs):
+        evs = p2_events(b)
+        if ctx.quick and b["mode"] == "map" and i % 2:
+            evs = evs[:1]  # quick tier: every kill map through the selection, every second one through the wide entry
+        pairs.extend(evs)
     n_p2 = len(pairs)
     # ---------------------------------------------------------------- P1
-    pairs.extend(e2e_events(ctx))
+    pairs.extend(e2e_future.result())
+    pool.shutdown()
     ctx.notes["events_p2"] = n_p2
     ctx.notes["events_e2e"] = {k: sum(1 for e, _ in pairs[n_p2:] if e["ev"] == k) for k in ("Min", "Rerun", "Kept")}
     for e, rec in pairs:
@@ -206,13 +224,13 @@ def run(ctx: Ctx) -> None:
     # ---------------------------------------------------------------- TLC on the recorded events
     traces = [{"ev": [slim(e)]} for e, _ in pairs]
     ctx.evaluations = len(traces)
-    verdicts = ctx.validate("SetCoverTrace", traces, chunk=30000)
+    verdicts = ctx.validate("SetCoverTrace", traces, chunk=30000, workers=4)
     for idx, bad in sorted(verdicts.items()):
         e, rec = pairs[idx]
         for clause, _ in bad:
             if clause in PROPERTY_CLAUSES:
                 ctx.bad(clause, signature(clause, e, rec), describe(e, rec), trace={"ev": [slim(e)]}, behaviour=rec)
-            elif len(ctx.drift) < 40:
+            elif sum(1 for d in ctx.drift if d.startswith(clause)) < 3:
                 ctx.drift.append(f"{clause}: {describe(e, rec)[:300]}")
     for i in (0, n_exh // 2, n_p2 - 1, len(pairs) - 1):
         if 0 <= i < len(pairs):
